@@ -15,3 +15,19 @@ pub mod props;
 pub mod runner;
 pub mod sched;
 pub mod spec;
+
+/// Set by the checking binary's allocator (main.rs) when the guard bytes behind a heap block were found changed at the
+/// time the block was freed or reallocated; read (and cleared) by the runner after every case.
+pub mod heapcheck {
+  use std::cell::Cell;
+  thread_local! {
+    static OVERRUN: Cell<usize> = const { Cell::new(0) };
+  }
+  /// (called from inside the allocator: no allocation, no lazy initialisation)
+  pub fn report(size: usize) {
+    let _ = OVERRUN.try_with(|c| c.set(size.max(1)));
+  }
+  pub fn take() -> Option<usize> {
+    OVERRUN.try_with(|c| c.replace(0)).ok().filter(|n| *n > 0)
+  }
+}
